@@ -120,7 +120,11 @@ func pinnedCases() []pinned {
 		goCase("C13", "C13/oneof_disc_timestamp_variant.json", "both", "", s)
 	}
 	innerCase := func(prop, file, variant, check, unit string, s *schema.Schema, noAvoid ...string) {
-		out = append(out, pinned{File: file, Doc: &innerReplay{Property: prop, Kind: "inner", Variant: variant, Check: check, Unit: unit,
+		param := ""
+		if check == "c20" {
+			param = "generate_mock=true"
+		}
+		out = append(out, pinned{File: file, Doc: &innerReplay{Property: prop, Kind: "inner", Variant: variant, Param: param, Check: check, Unit: unit,
 			Cases: 300, Seed: 7, Schema: s, NoAvoid: noAvoid}})
 	}
 	{
@@ -240,6 +244,12 @@ func pinnedCases() []pinned {
 		s, _, resp, _, _ := baseSchema("p0038")
 		resp.Fields = []*schema.Field{{Name: "quota", Number: 1, Kind: schema.KUint64, Card: schema.Singular, Ann: &schema.Ann{Examples: []string{"7", "13"}}}}
 		innerCase("C20", "C20/examples_ignored_for_unhandled_kinds.json", "server", "c20", "PinService.Do", s)
+		s7, _, resp7, _, _ := baseSchema("p0061")
+		s7.Files = append(s7.Files, &schema.File{Name: "p0061/types.proto", Generate: true,
+			Messages: []*schema.Message{{Name: "Owner", Fields: []*schema.Field{{Name: "first_name", Number: 1, Kind: schema.KString, Card: schema.Singular, Ann: &schema.Ann{Examples: []string{"alpha", "beta"}}}}}}})
+		resp7.Fields = append(resp7.Fields, &schema.Field{Name: "owner", Number: 2, Kind: schema.KMessage, TypeRef: s7.Pkg + ".Owner", Card: schema.Singular})
+		out = append(out, pinned{File: "C20/examples_of_types_in_other_files_ignored.json", Doc: &innerReplay{Property: "C20", Kind: "inner", Variant: "server", Param: "generate_mock=true", Check: "c20", Unit: "PinService.Do",
+			Cases: 300, Seed: 7, Schema: s7, NoAvoid: []string{"mock_examples_other_file"}}})
 		out[len(out)-1].Doc.(*innerReplay).Param = "generate_mock=true"
 		s2, _, resp2, _, _ := baseSchema("p0039")
 		resp2.Fields = []*schema.Field{{Name: "quota", Number: 1, Kind: schema.KInt64, Card: schema.Singular, Ann: &schema.Ann{Examples: []string{"not-a-number", "7", "13"}}}}
@@ -286,6 +296,11 @@ func pinnedCases() []pinned {
 		req3.Fields = append(req3.Fields, &schema.Field{Name: "height", Number: 2, Kind: schema.KEnum, TypeRef: s3.Pkg + ".Height", Card: schema.Singular})
 		out = append(out, pinned{File: "C12/enum_value_with_quote_refused.json", Doc: &c12Case{Property: "C12", Kind: "valid", Plugin: "protoc-gen-go-http", Schema: s3}})
 		out = append(out, pinned{File: "C13/ts_enum_value_with_quote.json", Doc: &c13Case{Property: "C13", Kind: "ts", Schema: s3}})
+		s4, _, resp4, _, _ := baseSchema("p0052")
+		s4.Files = append(s4.Files, &schema.File{Name: "p0052/ext/common.proto", Companion: true, Pkg: "p0052.ext", GoPath: s4.GoPath + "/ext", GoPkg: "ext",
+			Messages: []*schema.Message{{Name: "Address", Fields: []*schema.Field{fld("city", 1, schema.KString, schema.Singular)}}}})
+		resp4.Fields = append(resp4.Fields, &schema.Field{Name: "home", Number: 2, Kind: schema.KMessage, TypeRef: "p0052.ext.Address", Card: schema.Singular, Ann: &schema.Ann{Flatten: true}})
+		goCase("C13", "C13/flatten_child_from_other_package.json", "server", "", s4)
 	}
 	{
 		// two RPCs without an explicit path under a base_path: both are published at the base path
